@@ -111,6 +111,7 @@ package stgutg
 //@ func ManageNGSetup
 //@ prop C19
 //@ behavior failstop
+//@ assigns global free5gclib/nas/security/snow3g.lfsr free5gclib/nas/security/snow3g.fsm
 //@ driver
 //@ assumepre
 //@ nosafety
@@ -118,6 +119,7 @@ package stgutg
 //@ func RegisterUE
 //@ prop C19
 //@ behavior failstop
+//@ assigns global free5gclib/nas/security/snow3g.lfsr free5gclib/nas/security/snow3g.fsm
 //@ driver
 //@ assumepre
 //@ nosafety
@@ -125,6 +127,7 @@ package stgutg
 //@ func DeregisterUE
 //@ prop C19
 //@ behavior failstop
+//@ assigns global free5gclib/nas/security/snow3g.lfsr free5gclib/nas/security/snow3g.fsm
 //@ driver
 //@ assumepre
 //@ nosafety
@@ -132,6 +135,7 @@ package stgutg
 //@ func EstablishPDU
 //@ prop C19
 //@ behavior failstop
+//@ assigns global free5gclib/nas/security/snow3g.lfsr free5gclib/nas/security/snow3g.fsm
 //@ driver
 //@ assumepre
 //@ nosafety
@@ -139,6 +143,7 @@ package stgutg
 //@ func ReleasePDU
 //@ prop C19
 //@ behavior failstop
+//@ assigns global free5gclib/nas/security/snow3g.lfsr free5gclib/nas/security/snow3g.fsm
 //@ driver
 //@ assumepre
 //@ nosafety
@@ -146,6 +151,7 @@ package stgutg
 //@ func ServiceRequest
 //@ prop C19
 //@ behavior failstop
+//@ assigns global free5gclib/nas/security/snow3g.lfsr free5gclib/nas/security/snow3g.fsm
 //@ driver
 //@ assumepre
 //@ nosafety
@@ -171,6 +177,7 @@ package stgutg
 //@ driver
 //@ assumepre
 //@ nosafety
+//@ assigns global free5gclib/nas/security/snow3g.lfsr free5gclib/nas/security/snow3g.fsm
 //@ ensures five: vc.GhostLen("ngap.built") == 5
 //@ ensures initial: trace.Is(vc.GhostBytes("ngap.built", 0), trace.InitialUEMessage, 0, ue.RanUeNgapId, 0)
 //@ ensures authresp: trace.Is(vc.GhostBytes("ngap.built", 1), trace.UplinkNASTransport, ue.AmfUeNgapId, ue.RanUeNgapId, 0)
@@ -178,7 +185,8 @@ package stgutg
 //@ ensures ctxsetup: trace.Is(vc.GhostBytes("ngap.built", 3), trace.InitialContextSetupResponse, ue.AmfUeNgapId, ue.RanUeNgapId, 0)
 //@ ensures regcomplete: trace.Is(vc.GhostBytes("ngap.built", 4), trace.UplinkNASTransport, ue.AmfUeNgapId, ue.RanUeNgapId, 0)
 //@ ensures nas: vc.GhostLen("nas.built") == 5 && trace.Kind(vc.GhostBytes("nas.built", 0)) == trace.RegistrationRequest && trace.Kind(vc.GhostBytes("nas.built", 1)) == trace.AuthenticationResponse && trace.Kind(vc.GhostBytes("nas.built", 2)) == trace.RegistrationRequest && trace.Kind(vc.GhostBytes("nas.built", 3)) == trace.SecurityModeComplete && trace.Kind(vc.GhostBytes("nas.built", 4)) == trace.RegistrationComplete
-//@ ensures protect: vc.GhostLen("nas.protect") == 2 && trace.Is(vc.GhostBytes("nas.protect", 0), 4, 1, 1, 0) && trace.Is(vc.GhostBytes("nas.protect", 1), 2, 1, 0, 0)
+//@ ensures protect: vc.GhostLen("nas.protect") == 2 && trace.Is(vc.GhostBytes("nas.protect", 0), 4, 1, 1, 0) && trace.Is(vc.GhostBytes("nas.protect", 1), 2, 1, 0, 1)
+//@ ensures count: ue.ULCount.Get() == 2
 //@ ensures sameue: result0 == ue && ue.RanUeNgapId == old(ue.RanUeNgapId)
 
 //@ func EstablishPDU
@@ -189,10 +197,12 @@ package stgutg
 //@ driver
 //@ assumepre
 //@ nosafety
+//@ assigns global free5gclib/nas/security/snow3g.lfsr free5gclib/nas/security/snow3g.fsm
 //@ ensures ngap: vc.GhostLen("ngap.built") == 2 && trace.Kind(vc.GhostBytes("ngap.built", 0)) == trace.UplinkNASTransport && trace.Kind(vc.GhostBytes("ngap.built", 1)) == trace.PDUSessionResourceSetupResponse
 //@ ensures ids: trace.A(vc.GhostBytes("ngap.built", 0)) == ue.AmfUeNgapId && trace.Bv(vc.GhostBytes("ngap.built", 0)) == ue.RanUeNgapId && trace.A(vc.GhostBytes("ngap.built", 1)) == ue.AmfUeNgapId && trace.Bv(vc.GhostBytes("ngap.built", 1)) == ue.RanUeNgapId
 //@ ensures nas: vc.GhostLen("nas.built") == 1 && trace.Kind(vc.GhostBytes("nas.built", 0)) == trace.PDUSessionEstablishmentRequest
-//@ ensures protect: vc.GhostLen("nas.protect") == 1 && trace.Is(vc.GhostBytes("nas.protect", 0), 2, 1, 0, 0)
+//@ ensures protect: vc.GhostLen("nas.protect") == 1 && trace.Is(vc.GhostBytes("nas.protect", 0), 2, 1, 0, int64(old(ue.ULCount.Get())))
+//@ ensures count: ue.ULCount.Get() == (old(ue.ULCount.Get())+1)&0xffffff
 //@ ensures psi: trace.A(vc.GhostBytes("nas.built", 0)) == trace.C(vc.GhostBytes("ngap.built", 1)) && 1 <= trace.C(vc.GhostBytes("ngap.built", 1)) && trace.C(vc.GhostBytes("ngap.built", 1)) <= 15
 //@ ensures ue: ue.AmfUeNgapId == old(ue.AmfUeNgapId) && ue.RanUeNgapId == old(ue.RanUeNgapId)
 
@@ -204,10 +214,12 @@ package stgutg
 //@ driver
 //@ assumepre
 //@ nosafety
+//@ assigns global free5gclib/nas/security/snow3g.lfsr free5gclib/nas/security/snow3g.fsm
 //@ ensures ngap: vc.GhostLen("ngap.built") == 3 && trace.Kind(vc.GhostBytes("ngap.built", 0)) == trace.UplinkNASTransport && trace.Kind(vc.GhostBytes("ngap.built", 1)) == trace.PDUSessionResourceReleaseResponse && trace.Kind(vc.GhostBytes("ngap.built", 2)) == trace.UplinkNASTransport
 //@ ensures ids: vc.Forall(0, 3, func(k int) bool { return trace.A(vc.GhostBytes("ngap.built", k)) == ue.AmfUeNgapId && trace.Bv(vc.GhostBytes("ngap.built", k)) == ue.RanUeNgapId })
 //@ ensures nas: vc.GhostLen("nas.built") == 2 && trace.Kind(vc.GhostBytes("nas.built", 0)) == trace.PDUSessionReleaseRequest && trace.Kind(vc.GhostBytes("nas.built", 1)) == trace.PDUSessionReleaseComplete
-//@ ensures protect: vc.GhostLen("nas.protect") == 2 && trace.Is(vc.GhostBytes("nas.protect", 0), 2, 1, 0, 0) && trace.Is(vc.GhostBytes("nas.protect", 1), 2, 1, 0, 0)
+//@ ensures protect: vc.GhostLen("nas.protect") == 2 && trace.Is(vc.GhostBytes("nas.protect", 0), 2, 1, 0, int64(old(ue.ULCount.Get()))) && trace.Is(vc.GhostBytes("nas.protect", 1), 2, 1, 0, int64((old(ue.ULCount.Get())+1)&0xffffff))
+//@ ensures count: ue.ULCount.Get() == (old(ue.ULCount.Get())+2)&0xffffff
 //@ ensures psi: trace.A(vc.GhostBytes("nas.built", 0)) == trace.C(vc.GhostBytes("ngap.built", 1)) && trace.A(vc.GhostBytes("nas.built", 1)) == trace.C(vc.GhostBytes("ngap.built", 1)) && 1 <= trace.C(vc.GhostBytes("ngap.built", 1)) && trace.C(vc.GhostBytes("ngap.built", 1)) <= 15
 
 //@ func ServiceRequest
@@ -218,9 +230,11 @@ package stgutg
 //@ driver
 //@ assumepre
 //@ nosafety
+//@ assigns global free5gclib/nas/security/snow3g.lfsr free5gclib/nas/security/snow3g.fsm
 //@ ensures ngap: vc.GhostLen("ngap.built") == 2 && trace.Is(vc.GhostBytes("ngap.built", 0), trace.InitialUEMessage, 0, ue.RanUeNgapId, 0) && trace.Kind(vc.GhostBytes("ngap.built", 1)) == trace.InitialContextSetupResponseForService && trace.A(vc.GhostBytes("ngap.built", 1)) == ue.AmfUeNgapId && trace.Bv(vc.GhostBytes("ngap.built", 1)) == ue.RanUeNgapId
 //@ ensures nas: vc.GhostLen("nas.built") == 1 && trace.Kind(vc.GhostBytes("nas.built", 0)) == trace.ServiceRequest
-//@ ensures protect: vc.GhostLen("nas.protect") == 1 && trace.Is(vc.GhostBytes("nas.protect", 0), 2, 1, 0, 0)
+//@ ensures protect: vc.GhostLen("nas.protect") == 1 && trace.Is(vc.GhostBytes("nas.protect", 0), 2, 1, 0, int64(old(ue.ULCount.Get())))
+//@ ensures count: ue.ULCount.Get() == (old(ue.ULCount.Get())+1)&0xffffff
 //@ ensures psi: 1 <= trace.C(vc.GhostBytes("ngap.built", 1)) && trace.C(vc.GhostBytes("ngap.built", 1)) <= 15
 
 //@ func DeregisterUE
@@ -229,6 +243,18 @@ package stgutg
 //@ driver
 //@ assumepre
 //@ nosafety
+//@ assigns global free5gclib/nas/security/snow3g.lfsr free5gclib/nas/security/snow3g.fsm
 //@ ensures ngap: vc.GhostLen("ngap.built") == 2 && trace.Is(vc.GhostBytes("ngap.built", 0), trace.UplinkNASTransport, ue.AmfUeNgapId, ue.RanUeNgapId, 0) && trace.Is(vc.GhostBytes("ngap.built", 1), trace.UEContextReleaseComplete, ue.AmfUeNgapId, ue.RanUeNgapId, 0)
 //@ ensures nas: vc.GhostLen("nas.built") == 1 && trace.Kind(vc.GhostBytes("nas.built", 0)) == trace.DeregistrationRequest
-//@ ensures protect: vc.GhostLen("nas.protect") == 1 && trace.Is(vc.GhostBytes("nas.protect", 0), 2, 1, 0, 0)
+//@ ensures protect: vc.GhostLen("nas.protect") == 1 && trace.Is(vc.GhostBytes("nas.protect", 0), 2, 1, 0, int64(old(ue.ULCount.Get())))
+//@ ensures count: ue.ULCount.Get() == (old(ue.ULCount.Get())+1)&0xffffff
+
+//@ func ManageNGSetup
+//@ prop C01
+//@ behavior trace
+//@ driver
+//@ assumepre
+//@ nosafety
+//@ assigns global free5gclib/nas/security/snow3g.lfsr free5gclib/nas/security/snow3g.fsm
+//@ ensures ngap: vc.GhostLen("ngap.built") == 1 && trace.Is(vc.GhostBytes("ngap.built", 0), trace.NGSetupRequest, int64(bitlength), 0, 0)
+//@ ensures nonas: vc.GhostLen("nas.built") == 0 && vc.GhostLen("nas.protect") == 0
